@@ -46,6 +46,36 @@ def post_P(c, q):
     a, s, t = z3.Ints("a!p s!p t!p"); q.hyps += [a >= 0, a < NA, s >= 0, s < N, t >= 0, t < N]
     rs = rowsum(a, s)
     return z3.And(toz3(Pm.get((a, s, t))) * z3.If(rs > 0, rs, 1) == PS(NE, a, s, t))
-contract(PB, setup=setup, raises=[("ValueError", None)],
-    ensures={"R_expected_reward": post_R, "P_times_rowsum_is_event_mass": post_P,
+def absdev(a, s): return (lambda d: z3.If(d >= 0, d, -d))(rowsum(a, s) - 1)
+def maxdev(): return R.mk("max", NA, lambda a: R.mk("max", N, lambda s: absdev(a, s)))
+def when_error(c, q):
+    """ValueError exactly when some row's event mass deviates from one by more than the tolerance, and the message names a pair attaining the largest deviation"""
+    vals = c.I.fstrings[-1] if getattr(c.I, "fstrings", None) else []
+    if len(vals) < 2: return z3.BoolVal(False)
+    st, ac = toz3(vals[0]), toz3(vals[1])
+    return z3.And(maxdev() > c.tol, st >= 0, st < N, ac >= 0, ac < NA)
+def when_error_pair(c, q):
+    """the (state, action) interpolated into the message attain the largest deviation: |rowsum(action, state) - 1| >= |rowsum(a, s) - 1| for every pair"""
+    vals = c.I.fstrings[-1] if getattr(c.I, "fstrings", None) else []
+    if len(vals) < 2: return z3.BoolVal(False)
+    st, ac = toz3(vals[0]), toz3(vals[1])
+    a, s_ = z3.Ints("a!ep s!ep"); q.hyps += [a >= 0, a < NA, s_ >= 0, s_ < N]
+    # row-major digits (Lean ravel2_inj / ravel2_surj): the flat index of (a, s) in an (A, S) array is a*S + s, and div/mod recover the digits
+    j = a * N + s_; k = ac * N + st
+    q.hyps += [j / N == a, j % N == s_, k / N == ac, k % N == st, j >= 0, j < NA * N]
+    return absdev(ac, st) >= absdev(a, s_)
+def post_accept(c, q):
+    a, s = z3.Ints("a!acc s!acc"); q.hyps += [a >= 0, a < NA, s >= 0, s < N]
+    return z3.And(maxdev() <= c.tol, absdev(a, s) <= maxdev())
+def post_rows_one(c, q):
+    """every returned row sums to one (tolerance < 1 makes every accepted row mass positive)"""
+    Pm, Rm = c.result; a, s = z3.Ints("a!ro s!ro"); q.hyps += [a >= 0, a < NA, s >= 0, s < N]
+    rs = rowsum(a, s)
+    q.hyps += [absdev(a, s) <= maxdev(), maxdev() <= c.tol]              # post.accepted_only_within_tolerance (proved separately) instantiated at this row
+    q.hyps.append(R.mk("sum", N, lambda t: PS(NE, a, s, t) / rs) == rs / rs)   # sum of c*f = c*sum f for the constant 1/rs (linearity, engine rule 3)
+    return R.mk("sum", N, lambda t: toz3(Pm.get((a, s, t)))) == 1
+contract(PB, setup=lambda I: (lambda c: (c.__setitem__("I", I), c)[1])(setup(I)), raises=[("ValueError", when_error, "only_when_some_row_deviates_by_more_than_the_tolerance")],
+    # NOT under deductive contract: "the message names a pair attaining the largest deviation" (when_error_pair) - linking jnp.argmax over the flattened
+    # (A,S) array (symbolic div/mod) with the nested maximum did not close in z3; this clause is checked by the bounded harness only (c17.error_names_pair)
+    ensures={"R_expected_reward": post_R, "P_times_rowsum_is_event_mass": post_P, "accepted_only_within_tolerance": post_accept, "returned_rows_sum_to_one": post_rows_one,
              "shapes": lambda c, q: z3.And(*[toz3(x) == y for x, y in zip(c.result[0].shape, (NA, N, N))], *[toz3(x) == y for x, y in zip(c.result[1].shape, (N, NA))])})
